@@ -61,6 +61,7 @@ theorem count_false_set_le (l : List Bool) (i : Nat) :
     lies at most `2^40` above the segment's virtual address. -/
 structure SmallInv (B : Nat) (G : List Seg) (lay : Layout) : Prop where
   pot : lay.pos.toNat + 2199023255552 * lay.gen.count false ≤ B
+  len : lay.secs.length < 65536
   sz : ∀ (k : Nat) (s : SecBuf), lay.secs[k]? = some s →
     s.size.toNat < 1099511627776 ∧ s.addrAlign.toNat < 1099511627776
   addr : ∀ g ∈ G, ∀ idx ∈ g.secs, ∀ s : SecBuf, lay.secs[idx.toNat]? = some s →
@@ -68,7 +69,7 @@ structure SmallInv (B : Nat) (G : List Seg) (lay : Layout) : Prop where
     g.vaddr.toNat ≤ s.addr.toNat ∧ s.addr.toNat - g.vaddr.toNat < 1099511627776
 
 theorem SmallInv.mono {B B' : Nat} {G : List Seg} {lay : Layout} (h : SmallInv B G lay) (hb : B ≤ B') :
-    SmallInv B' G lay := ⟨Nat.le_trans h.pot hb, h.sz, h.addr⟩
+    SmallInv B' G lay := ⟨Nat.le_trans h.pot hb, h.len, h.sz, h.addr⟩
 
 /-! ### one member -/
 
@@ -155,12 +156,13 @@ theorem wsdStepNW_of_bound (c : Cls) (g : Seg) (segStart : BitVec 64) (st : WsdS
     · rw [List.getElem?_eq_none h'] at hgen; exact nomatch hgen
   -- marking `idx` as generated (sections unchanged or only `idx` replaced by a `Moved` copy)
   have hmark : ∀ (secs' : List SecBuf) (pos' : BitVec 64),
+      secs'.length = st.lay.secs.length →
       (∀ k, k ≠ idx.toNat → secs'[k]? = st.lay.secs[k]?) →
       (∀ s', secs'[idx.toNat]? = some s' → SecBuf.Moved sec s') →
       pos'.toNat + 2199023255552 * (st.lay.gen.set idx.toNat true).count false ≤ B →
       SmallInv B G { secs := secs', pos := pos', gen := st.lay.gen.set idx.toNat true } := by
-    intro secs' pos' hoth hself hpot
-    refine ⟨hpot, ?_, ?_⟩
+    intro secs' pos' hlen hoth hself hpot
+    refine ⟨hpot, by simp only [hlen]; exact hinv.len, ?_, ?_⟩
     · intro k s hk
       by_cases hki : k = idx.toNat
       · subst hki
@@ -186,7 +188,7 @@ theorem wsdStepNW_of_bound (c : Cls) (g : Seg) (segStart : BitVec 64) (st : WsdS
     by_cases hnull : wsd_is_null sec.stype = true
     · simp only [hnull, if_true, pure, Except.pure, Except.ok.injEq, Option.some.injEq] at h
       subst h
-      apply hmark st.lay.secs st.lay.pos (fun _ _ => rfl)
+      apply hmark st.lay.secs st.lay.pos rfl (fun _ _ => rfl)
       · intro s' hs'; rw [hsec] at hs'; simp only [Option.some.injEq] at hs'; subst hs'; exact SecBuf.Moved.refl _
       · have := count_false_set_le st.lay.gen idx.toNat
         have := hinv.pot
@@ -207,7 +209,7 @@ theorem wsdStepNW_of_bound (c : Cls) (g : Seg) (segStart : BitVec 64) (st : WsdS
       intro st' h
       simp only [pure, Except.pure, Except.ok.injEq, Option.some.injEq] at h
       subst h
-      apply hmark st.lay.secs st.lay.pos (fun _ _ => rfl)
+      apply hmark st.lay.secs st.lay.pos rfl (fun _ _ => rfl)
       · intro s' hs'; rw [hsec] at hs'; simp only [Option.some.injEq] at hs'; subst hs'; exact SecBuf.Moved.refl _
       · have := count_false_set_le st.lay.gen idx.toNat
         have := hinv.pot
@@ -242,6 +244,7 @@ theorem wsdStepNW_of_bound (c : Cls) (g : Seg) (segStart : BitVec 64) (st : WsdS
           simp only [pure, Except.pure, Except.ok.injEq, Option.some.injEq] at h
           subst h
           apply hmark
+          · exact List.length_set
           · intro k hk
             rw [List.getElem?_set]; simp [Ne.symm hk]
           · intro s' hs'
@@ -285,6 +288,191 @@ theorem wsdLoopNW_of_bound (c : Cls) (g : Seg) (segStart : BitVec 64) (l : List 
         intro st' h
         simp only [bind, Except.bind] at h
         exact i2 st' h
+
+/-! ### one segment -/
+
+theorem lseg_advance_small (pos align adj : BitVec 64) (hal : align.toNat < 1099511627776)
+    (hp : pos.toNat + 1099511627776 ≤ 18446744073709551616) :
+    pos.toNat ≤ (lseg_advance pos align adj (lseg_align align)).toNat ∧
+    (lseg_advance pos align adj (lseg_align align)).toNat ≤ pos.toNat + 1099511627776 := by
+  have hA := lseg_align_toNat align
+  have hm : ((align + adj) % lseg_align align).toNat < (lseg_align align).toNat := by
+    rw [BitVec.toNat_umod]; exact Nat.mod_lt _ (by omega)
+  unfold lseg_advance
+  generalize ((align + adj) % lseg_align align) = d at hm ⊢
+  have := pos.isLt
+  simp only [BitVec.toNat_add, Nat.reducePow]
+  omega
+
+/-- where the cursor is after `segInit`: not before, and less than `2^40` after, where it was -/
+theorem segInit_pos (c : Cls) (hdrPhoff : BitVec 64) (phentsize phnum : BitVec 16) (lay : Layout) (g : Seg)
+    (fg : Bool) (r : Layout × BitVec 64 × BitVec 64 × BitVec 64)
+    (h : segInit c hdrPhoff phentsize phnum lay g fg = .ok r)
+    (hal : g.align.toNat < 1099511627776)
+    (hp : lay.pos.toNat + 1099511627776 ≤ 18446744073709551616) :
+    lay.pos.toNat ≤ r.1.pos.toNat ∧ r.1.pos.toNat ≤ lay.pos.toNat + 1099511627776 := by
+  unfold segInit at h
+  simp only at h
+  repeat' split at h
+  all_goals first
+    | (simp only [pure, Except.pure, Except.ok.injEq] at h; subst h
+       first
+         | exact ⟨Nat.le_refl _, Nat.le_add_right _ _⟩
+         | exact lseg_advance_small _ _ _ hal hp)
+    | (simp [throw, throwThe, MonadExceptOf.throw] at h)
+
+/-- **One segment under the bounds**: `segNW` holds, and the invariant is kept with `B + 2^40`. -/
+theorem segNW_of_bound (c : Cls) (hdrPhoff : BitVec 64) (phentsize phnum : BitVec 16) (lay : Layout) (g : Seg)
+    (B : Nat) (G : List Seg) (hc : c = .c64) (hg : g ∈ G) (hal : g.align.toNat < 1099511627776)
+    (hB : B + 1099511627776 ≤ 4611686018427387904) (hinv : SmallInv B G lay) :
+    segNW c hdrPhoff phentsize phnum lay g = true ∧
+    ∀ lay' g', layoutSegment c hdrPhoff phentsize phnum lay g = .ok (some (lay', g')) →
+      SmallInv (B + 1099511627776) G lay' := by
+  rw [layoutSegment_eq]
+  unfold segNW
+  cases hfg : segFirstGen lay g with
+  | error e => exact ⟨rfl, fun _ _ h => by simp [bind, Except.bind] at h⟩
+  | ok fg =>
+    simp only [bind, Except.bind]
+    cases hin : segInit c hdrPhoff phentsize phnum lay g fg with
+    | error e => exact ⟨rfl, fun _ _ h => by simp at h⟩
+    | ok r =>
+      simp only
+      have hpot := hinv.pot
+      obtain ⟨hp1, hp2⟩ := segInit_pos c hdrPhoff phentsize phnum lay g fg r hin hal (by omega)
+      have hl := segInit_lay c hdrPhoff phentsize phnum lay g fg r hin
+      have hinv1 : SmallInv (B + 1099511627776) G r.1 := by
+        rw [hl]
+        exact ⟨by simp only; omega, hinv.len, hinv.sz, hinv.addr⟩
+      obtain ⟨hnw, hst⟩ := wsdLoopNW_of_bound c g r.2.1 g.secs
+        { lay := r.1, mem := r.2.2.1, file := r.2.2.2 } (B + 1099511627776) G hc hg (fun _ h => h) hB hinv1
+      constructor
+      · subst hc
+        simp only [hnw, fitsB, Bool.and_true, decide_eq_true_eq]
+        exact hp1
+      · intro lay' g' h
+        cases hw : wsdLoop c g r.2.1 g.secs { lay := r.1, mem := r.2.2.1, file := r.2.2.2 } with
+        | error e => rw [hw] at h; simp at h
+        | ok w =>
+          rw [hw] at h
+          cases w with
+          | none => simp [pure, Except.pure] at h
+          | some st =>
+            simp only [pure, Except.pure, Except.ok.injEq, Option.some.injEq, Prod.mk.injEq] at h
+            obtain ⟨rfl, -⟩ := h
+            exact hst st hw
+
+/-! ### all segments -/
+
+/-- **Pass 2 under the bounds**: for a list `l` of segments of `G` with alignments below `2^40`,
+    `segsNW` holds and the invariant is kept with `B + 2^40 * l.length`. -/
+theorem segsNW_of_bound (c : Cls) (hdrPhoff : BitVec 64) (phentsize phnum : BitVec 16) (l : List Seg)
+    (lay : Layout) (B : Nat) (G : List Seg) (hc : c = .c64)
+    (hl : ∀ g ∈ l, g ∈ G ∧ g.align.toNat < 1099511627776)
+    (hB : B + 1099511627776 * l.length ≤ 4611686018427387904) (hinv : SmallInv B G lay) :
+    segsNW c hdrPhoff phentsize phnum l lay = true ∧
+    ∀ done lay' done', l.foldlM (segsStep c hdrPhoff phentsize phnum) (some (lay, done)) = .ok (some (lay', done')) →
+      SmallInv (B + 1099511627776 * l.length) G lay' := by
+  induction l generalizing lay B with
+  | nil =>
+    refine ⟨rfl, ?_⟩
+    intro done lay' done' h
+    simp only [List.foldlM, pure, Except.pure, Except.ok.injEq, Option.some.injEq, Prod.mk.injEq] at h
+    obtain ⟨rfl, -⟩ := h
+    exact hinv.mono (by omega)
+  | cons g rest ih =>
+    simp only [List.length_cons, Nat.mul_add_one, ← Nat.add_assoc] at hB ⊢
+    obtain ⟨hgG, hga⟩ := hl g (List.mem_cons_self ..)
+    have hrest : ∀ g' ∈ rest, g' ∈ G ∧ g'.align.toNat < 1099511627776 :=
+      fun g' h' => hl g' (List.mem_cons_of_mem _ h')
+    obtain ⟨hnw, hseg⟩ := segNW_of_bound c hdrPhoff phentsize phnum lay g B G hc hgG hga (by omega) hinv
+    unfold segsNW
+    simp only [List.foldlM, segsStep, bind, Except.bind]
+    cases hs : layoutSegment c hdrPhoff phentsize phnum lay g with
+    | error e => exact ⟨by simp [hnw], fun _ _ _ h => by simp at h⟩
+    | ok r =>
+      cases r with
+      | none =>
+        refine ⟨by simp [hnw], ?_⟩
+        intro done lay' done' h
+        simp only [pure, Except.pure] at h
+        rw [segsFold_none] at h; simp at h
+      | some r =>
+        obtain ⟨lay1, g1⟩ := r
+        obtain ⟨i1, i2⟩ := ih lay1 (B + 1099511627776) hrest (by omega) (hseg lay1 g1 hs)
+        refine ⟨by simp only [hnw, i1, Bool.and_self], ?_⟩
+        intro done lay' done' h
+        simp only [pure, Except.pure] at h
+        exact (i2 _ lay' done' h).mono (by omega)
+
+/-! ### pass 3 -/
+
+/-- **Pass 3 under the bounds**: `looseNW` holds and the final cursor stays below the bound. -/
+theorem looseNW_of_bound (c : Cls) (segs : List Seg) (l : List SecBuf) (i : Nat) (pos : BitVec 64) (B : Nat)
+    (hc : c = .c64)
+    (hsz : ∀ s ∈ l, s.size.toNat < 1099511627776 ∧ s.addrAlign.toNat < 1099511627776)
+    (hpot : pos.toNat + 2199023255552 * l.length ≤ B) (hB : B ≤ 4611686018427387904) :
+    looseNW c segs l i pos = true ∧ (looseSpec c segs l i pos).2.toNat ≤ B := by
+  induction l generalizing i pos with
+  | nil => exact ⟨rfl, by simp only [looseSpec, List.length_nil] at hpot ⊢; omega⟩
+  | cons s rest ih =>
+    simp only [List.length_cons, Nat.mul_add_one, ← Nat.add_assoc] at hpot
+    obtain ⟨hs1, hs2⟩ := hsz s (List.mem_cons_self ..)
+    have hrest : ∀ t ∈ rest, t.size.toNat < 1099511627776 ∧ t.addrAlign.toNat < 1099511627776 :=
+      fun t ht => hsz t (List.mem_cons_of_mem _ ht)
+    unfold looseNW looseSpec
+    by_cases hw : withoutSegment segs i = true
+    · simp only [hw, if_true, (setOffset_moved c s _).stype, (setOffset_moved c s _).size]
+      have hp := pos.isLt
+      have e0 : (BitVec.signExtend 64 0#32) = 0#64 := by decide
+      have e1 : (BitVec.signExtend 64 1#32) = 1#64 := by decide
+      have h1 : pos.toNat ≤ (if lsws_need_align s.addrAlign pos then lsws_aligned pos s.addrAlign else pos).toNat ∧
+          (if lsws_need_align s.addrAlign pos then lsws_aligned pos s.addrAlign else pos).toNat
+            ≤ pos.toNat + 1099511627776 := by
+        by_cases hn : lsws_need_align s.addrAlign pos = true
+        · simp only [hn, if_true]
+          simp only [lsws_need_align, e0, e1, Bool.and_eq_true, BitVec.ult, decide_eq_true_eq,
+            BitVec.toNat_ofNat, Nat.reducePow, Nat.reduceMod] at hn
+          have hmod : (pos % s.addrAlign).toNat = pos.toNat % s.addrAlign.toNat := BitVec.toNat_umod
+          have hlt : pos.toNat % s.addrAlign.toNat < s.addrAlign.toNat := Nat.mod_lt _ (by omega)
+          have hsub : (s.addrAlign - pos % s.addrAlign).toNat = s.addrAlign.toNat - pos.toNat % s.addrAlign.toNat := by
+            simp only [BitVec.toNat_sub, hmod, Nat.reducePow]; omega
+          unfold lsws_aligned
+          simp only [BitVec.toNat_add, hsub, Nat.reducePow]
+          omega
+        · have hn' : lsws_need_align s.addrAlign pos = false := by simpa using hn
+          simp only [hn', Bool.false_eq_true, if_false]
+          omega
+      generalize (if lsws_need_align s.addrAlign pos then lsws_aligned pos s.addrAlign else pos) = pos1 at h1 ⊢
+      have hp1 := pos1.isLt
+      have h2 : pos1.toNat ≤ (if lsws_occupies s.stype then wsd_advance pos1 s.size else pos1).toNat ∧
+          (if lsws_occupies s.stype then wsd_advance pos1 s.size else pos1).toNat
+            ≤ pos1.toNat + 1099511627776 := by
+        split
+        · simp only [wsd_advance, BitVec.toNat_add, Nat.reducePow]; omega
+        · omega
+      generalize (if lsws_occupies s.stype then wsd_advance pos1 s.size else pos1) = pos2 at h2 ⊢
+      obtain ⟨i1, i2⟩ := ih (i + 1) pos2 hrest (by omega)
+      subst hc
+      refine ⟨?_, i2⟩
+      simp only [i1, fitsB, Bool.and_true, Bool.and_eq_true, decide_eq_true_eq]
+      exact ⟨h1.1, h2.1⟩
+    · have hw' : withoutSegment segs i = false := by simpa using hw
+      simp only [hw', Bool.false_eq_true, if_false]
+      exact ih (i + 1) pos hrest (by omega)
+
+/-! ### the section header table -/
+
+theorem lst_cursor_small (pos : BitVec 64) (h : pos.toNat ≤ 9223372036854775808) :
+    pos.toNat ≤ (lst_cursor pos (lst_error pos)).toNat := by
+  have e16 : (BitVec.signExtend 64 16#32) = 16#64 := by decide
+  unfold lst_cursor lst_error
+  rw [e16]
+  have hm : (pos % 16#64).toNat = pos.toNat % 16 := by simp [BitVec.toNat_umod]
+  have hs : (16#64 - pos % 16#64).toNat = 16 - pos.toNat % 16 := by
+    simp only [BitVec.toNat_sub, hm, BitVec.toNat_ofNat, Nat.reducePow, Nat.reduceMod]; omega
+  simp only [BitVec.toNat_add, hs, Nat.reducePow]
+  omega
 
 end Small
 end ElfioVerif
